@@ -14,7 +14,7 @@ class StubInterface:
 
     script: list of behaviours consumed per send_cemi call (default: ok, small latency,
     confirmation shortly after return):
-      {"lat": s, "out": "ok"|"comm_error"|"conf_error"|"exc", "con": None|"before_return"|"after"|"never",
+      {"lat": s, "out": "ok"|"comm_error"|"comm_error_sent"|"conf_error"|"exc", "con": None|"before_return"|"after"|"never",
        "con_d": s}
     """
 
@@ -81,6 +81,11 @@ class StubInterface:
                 await asyncio.sleep(lat)
             if out == "comm_error":
                 raise CommunicationError("scripted send failure")
+            if out == "comm_error_sent":
+                # the frame went out (and is seen on the bus) but the hand-off still fails, e.g. its acknowledgement was lost
+                if self.on_send is not None:
+                    self.on_send(raw, rec)
+                raise CommunicationError("scripted send failure after transmission")
             if out == "conf_error":
                 raise ConfirmationError("scripted confirmation failure")
             if out == "exc":
